@@ -41,9 +41,9 @@ func (c15) Gen(rng *simrt.Rand, seed uint64, tier string) *Case {
 		case 1:
 			within, withinNS = "1h", int64(time.Hour)
 		case 2:
-			within, withinNS = "300ms", int64(300*time.Millisecond)
+			within, withinNS = "345ms", int64(345*time.Millisecond) // never equal to a sum of the timestamp gaps: the boundary case races with the wall-clock sweeper
 		case 3:
-			within, withinNS = "1s", int64(time.Second)
+			within, withinNS = "1045ms", int64(1045*time.Millisecond)
 		}
 	} else if rng.Bool(0.3) {
 		within, withinNS = "1h", 0 // sequence numbers: WITHIN never constrains
@@ -278,8 +278,15 @@ func (c15) Run(e *Env) {
 		}
 		return -1
 	}
+	// a Stop whose join ran into the grace abandons what it could not join (see C18)
+	graceHit := false
+	for _, rec := range e.Ops {
+		if rec.Op.K == "stop" && rec.TRet-rec.TInv >= stopGrace {
+			graceHit = true
+		}
+	}
 	for _, d := range in.Deliveries {
-		if in.StopRet > 0 && d.Start >= in.StopRet {
+		if in.StopRet > 0 && d.Start >= in.StopRet && !graceHit {
 			e.Violate("C15/match-after-stop", "", "a match was delivered at step %d, after Stop had returned at step %d", d.Start, in.StopRet)
 		}
 		for _, r := range d.Rows {
